@@ -409,6 +409,7 @@ pub struct Gen<'a> {
     pub iters: u64,
 }
 pub const MAX_ITERS: u64 = 4000;
+pub const SHIFT_COUNTS: [i64; 9] = [0, 1, 31, 62, 63, 64, 65, 127, 128];
 pub const BOUNDARY: [i64; 22] = [0, 1, -1, 2, 3, 7, 63, 64, 65, 255, 256, 65535, 0x7fff_ffff, 0x8000_0000, 0xffff_ffff, 0x1_0000_0000,
     (1 << 53) - 1, 1 << 53, (1 << 53) + 1, i64::MAX, -i64::MAX, i64::MAX - 1];
 
@@ -436,7 +437,7 @@ impl<'a> Gen<'a> {
     }
     fn has_pat(&self) -> bool { self.npats > 0 || self.for_of > 0 }
     /// a run-time expression whose value is the constant c (not foldable)
-    fn rt(&mut self, c: i64) -> E {
+    pub fn rt(&mut self, c: i64) -> E {
         let base = E::Arith(Op::Sub, bx(E::Filesize), bx(E::Int(self.fsize)));
         if c == 0 { base } else if c > 0 { E::Arith(Op::Add, bx(base), bx(E::Int(c))) } else if c == i64::MIN {
             E::Arith(Op::Sub, bx(E::Arith(Op::Sub, bx(base), bx(E::Int(i64::MAX)))), bx(E::Int(1)))
@@ -510,9 +511,20 @@ impl<'a> Gen<'a> {
             0..=7 => {
                 let o = *self.rng.pick(&[Op::Add, Op::Add, Op::Sub, Op::Sub, Op::Mul, Op::Div, Op::Mod, Op::Shl, Op::Shr, Op::BAnd, Op::BOr, Op::BXor]);
                 let a = self.gen_int(d - 1);
-                let b = if matches!(o, Op::Shl | Op::Shr) {
-                    if self.rng.chance(1, 4) { E::Int(*self.rng.pick(&[0i64, 1, 31, 32, 62, 63, 64, 65, 100])) } else { self.small_int(1) }
-                } else { self.gen_int(d - 1) };
+                let (a, b) = if matches!(o, Op::Shl | Op::Shr) {
+                    // boundary shift counts, as constants (folded by the compiler) and manufactured
+                    // at run time (the emitted `< 64` guard); interesting left operands
+                    let c = *self.rng.pick(&SHIFT_COUNTS);
+                    let b = match self.rng.below(6) {
+                        0 => E::Int(c),
+                        1 | 2 => self.rt(c),
+                        3 if self.has_pat() => { let p = self.pat(); E::Arith(Op::Add, bx(E::Arith(Op::Sub, bx(E::Count(p, None)), bx(E::Count(p, None)))), bx(E::Int(c))) }
+                        4 => { let vars = self.small_vars(); if vars.is_empty() { self.rt(c) } else { E::Arith(Op::Add, bx(E::Var(*self.rng.pick(&vars))), bx(E::Int(c - c % 2))) } }
+                        _ => self.small_int(1),
+                    };
+                    let a = if self.rng.chance(1, 3) { let l = *self.rng.pick(&[1i64, -1, i64::MIN, i64::MAX]); if l == i64::MIN || self.rng.chance(1, 2) { self.rt(l) } else { E::Int(l) } } else { a };
+                    (a, b)
+                } else { let b = self.gen_int(d - 1); (a, b) };
                 self.arith(o, a, b)
             }
             8 => { let a = self.gen_int(d - 1); let e = E::Neg(bx(a.clone())); if fold_flags_of(&e, &self.cscope()).neg_min { a } else { e } }
